@@ -260,6 +260,7 @@ def evaluate(case: Dict[str, Any], base: pathlib.Path) -> Dict[str, Any]:
     nlines = len(src.lines) - (1 if text.endswith("\n") else 0)
     n_target = 0
     target_line1 = False
+    own_located = any(needle in msg and (ln, col) in cands for (ln, col, msg, _ind) in locs)
     for (ln, col, msg, _ind) in locs:
         where = f"'At line {ln} and column {col}: {msg[:150]}'"
         if not (1 <= ln <= nlines):
@@ -267,7 +268,9 @@ def evaluate(case: Dict[str, Any], base: pathlib.Path) -> Dict[str, Any]:
                                  f"{where}: the text has {nlines} lines"))
             continue
         line = src.lines[ln - 1]
-        is_target = needle in msg
+        # an error with the operator's message that sits elsewhere although one sits at the planted construct
+        # stems from another entity of the base model (e.g. a second conflicting length bound): judged as "other"
+        is_target = needle in msg and not (own_located and (ln, col) not in cands)
         ok_set = cands if is_target else starts
         if is_target:
             n_target += 1
